@@ -67,7 +67,8 @@ CHECKS = {
                   "CompactDeletes leaves the latest VALUE of every key unchanged (a key whose only message is value-less is absent before "
                   "and after); hence so does Compact, their composition. Completeness: every examined message followed by a later examined "
                   "message with the same key is selected, so at most one message per key is left among those not newer than the cut-off "
-                  "(that these are all examined when times never decrease is checked by the runs). Tied to /repo by seeded histories over a small key alphabet with value-less messages and "
+                  "(and when the times of the live messages never decrease these are all of them: no two remaining messages not newer than "
+                  "the cut-off share a key - compact_updates_one_per_key). Tied to /repo by seeded histories over a small key alphabet with value-less messages and "
                   "cut-offs around the time range: the key -> latest value map from a full scan before/after every Compact* call, the set "
                   "of removed offsets, compared with the extracted model and judged by check_latest_preserved / check_updates / "
                   "check_deletes on the implementation output.",
